@@ -1939,6 +1939,119 @@ def check_ho_build(run: Run, prog: Program) -> None:
         run.check(ok, "C05.TAB", raw.qual, "tokens replayed into the builder(s) by kind", detail, node=raw.node, file=raw.file)
 
 
+_DEQUE_MUTATORS = ("append", "appendleft", "extend", "extendleft", "insert", "pop", "popleft", "clear", "remove", "rotate", "reverse")
+
+
+def _stored_read(e: ast.AST | None, module: Any, cls: ClassInfo | None) -> tuple[str, ast.AST | None] | None:
+    """(table text, key expression | None) when `e` reads a value back out of something that outlives the call: an
+    attribute / item of the object, of its class, or of a module-level container."""
+    def rooted(b: ast.AST) -> bool:
+        while isinstance(b, (ast.Attribute, ast.Subscript)):
+            b = b.value
+        if isinstance(b, ast.Call) and u(b.func) == "type" and len(b.args) == 1:
+            b = b.args[0]
+        if not isinstance(b, ast.Name):
+            return False
+        return b.id in ("self", "cls") or (cls is not None and b.id == cls.name) or b.id in module.assigns \
+            or b.id in module.classes
+
+    if isinstance(e, ast.Subscript) and isinstance(e.ctx, ast.Load) and rooted(e.value):
+        return u(e.value), e.slice
+    if isinstance(e, ast.Call) and isinstance(e.func, ast.Attribute) and e.func.attr in ("get", "setdefault", "pop") and e.args \
+            and isinstance(e.func.value, (ast.Attribute, ast.Name, ast.Subscript)) and rooted(e.func.value):
+        return u(e.func.value), e.args[0]
+    if isinstance(e, ast.Attribute) and isinstance(e.ctx, ast.Load) and rooted(e) and isinstance(e.value, (ast.Name, ast.Attribute, ast.Call)):
+        return u(e), None
+    return None
+
+
+def check_fresh(run: Run, prog: Program) -> None:
+    """C05.FRESH ("every expression tree built through the Python operator/method API ... each emitted value equals
+    that expression"): the operator methods of a builder (_push, consumption, production, whatever mutates the token
+    deque) change the builder *in place* and return the same object, so the expression a builder denotes changes over
+    its life time.  The engine build() returns therefore has to be compiled from the token stream the builder holds
+    *at that call*: no return of build() may hand back an engine read out of a store that outlives the call (a memo
+    on the builder, its class or the module; functools caches) -- unless the store's key is computed from the token
+    stream itself or every mutator of the token stream empties the store.  Otherwise build(); <more operators>;
+    build() with the same arguments streams the OLD, shorter expression under the new one's name."""
+    from .c13 import operand_stream_leaves
+
+    base = prog.cls(f"{ENGINE}:_BaseHOFormulaBuilder")
+    for cname in ("HigherOrderFormulaBuilder", "HigherOrderFormulaBuilder3Phase"):
+        raw = prog.func(f"{ENGINE}:{cname}.build")
+        run.analysed(raw.qual)
+        cls = raw.cls
+        inst = f"{raw.qual}: the returned engine is compiled from the tokens held at the call"
+        cached = [u(d) for d in raw.node.decorator_list if "cache" in u(d).lower() or "memo" in u(d).lower()]
+        if cached:
+            run.violation("C05.FRESH", raw.qual, f"@{cached[0]}",
+                          f"build() is memoised by `@{cached[0]}` on its arguments, but the builder's operator methods change its "
+                          "token stream in place: a second build() after further operators returns the engine of the OLD expression",
+                          node=raw.node, file=raw.file)
+            continue
+        fl = Flow(prog, spliced(prog, raw))
+        # the token store: what the replay loop iterates
+        toks = {u(o.node) for h in fl.cfg.nodes if h.kind == "for" and h.id in fl.live and isinstance(h.ast.target, ast.Tuple)  # type: ignore[union-attr]
+                for o in fl.origin(h.ast.iter, h.id) if o.kind == "expr" and u(o.node).startswith("self.")}  # type: ignore[union-attr]
+        if not toks:
+            toks = {"self._steps"}
+        hits: list[tuple[str, ast.AST | None, Any, int, ast.AST]] = []
+        rets = fl.returns()
+        for r in rets:
+            v = fl.cfg.nodes[r].ast.value  # type: ignore[union-attr]
+            if v is None:
+                continue
+            for f2, n2, e, _txt in operand_stream_leaves(fl, r, v):
+                sr = _stored_read(e, raw.module, cls)
+                if sr is not None and e is not None:
+                    hits.append((sr[0], sr[1], f2, n2, e))
+        if not rets:
+            raise AnalysisError(f"{raw.qual}: no return found (C05.FRESH)")
+        if not hits:
+            run.ok("C05.FRESH", inst)
+            continue
+        # every method of the builder that changes the token stream
+        owners = [c for c in (base, cls) if c is not None]
+        mutators: list[FuncInfo] = []
+        for c in owners:
+            for m in c.methods.values():
+                if m.name in ("__init__", "build") or m in mutators:
+                    continue
+                for x in ast.walk(m.node):
+                    if (isinstance(x, ast.Call) and isinstance(x.func, ast.Attribute) and x.func.attr in _DEQUE_MUTATORS and u(x.func.value) in toks) \
+                            or (isinstance(x, (ast.Attribute, ast.Subscript)) and isinstance(x.ctx, (ast.Store, ast.Del))
+                                and (u(x) in toks or (isinstance(x, ast.Subscript) and u(x.value) in toks))):
+                        mutators.append(m)
+                        break
+        for table, key, f2, n2, e in hits:
+            keyed = False
+            if key is not None:
+                names = [key] + [o.node for x in ast.walk(key) if isinstance(x, ast.Name) and isinstance(x.ctx, ast.Load)
+                                 for o in f2.origin(x, n2, through_helpers=False) if o.kind == "expr" and o.node is not None]
+                keyed = any(u(y) in toks for k_ in names for y in ast.walk(k_) if isinstance(y, ast.Attribute))
+            root = table.split("[")[0]
+
+            def empties(m: FuncInfo, root: str = root) -> bool:
+                for x in ast.walk(m.node):
+                    if isinstance(x, ast.Call) and isinstance(x.func, ast.Attribute) and x.func.attr in ("clear", "pop", "popitem") \
+                            and u(x.func.value) == root:
+                        return True
+                    if isinstance(x, (ast.Attribute, ast.Subscript)) and isinstance(x.ctx, (ast.Store, ast.Del)) \
+                            and (u(x) == root or (isinstance(x, ast.Subscript) and u(x.value) == root)):
+                        return True
+                return False
+
+            stale = sorted(m.name for m in mutators if not empties(m))
+            run.check(keyed or (bool(mutators) and not stale), "C05.FRESH", raw.qual, f"build() returns `{u(e)[:60]}`",
+                      f"build() can return an engine read back from `{table}` (`{u(e)[:80]}`) instead of compiling the tokens the builder "
+                      f"holds now, but {', '.join(stale) or 'the operator methods'} change `{sorted(toks)[0]}` in place (and return the same "
+                      "builder) without emptying that store, and its key does not depend on the token stream: after "
+                      "`b = e1 + e2; b.build(n); b = b * 2.0; b.build(n)` the second engine still streams e1 + e2 -- the emitted values "
+                      "are not the value of the expression the engine was built from.  The same holds for any memo of built engines "
+                      "(per builder, per class, per module, functools.cache) that is not invalidated by every operator, "
+                      "consumption() and production()", node=e, file=raw.file, instance=inst)
+
+
 def check_digits(run: Run, prog: Program) -> None:
     """C05.TOK (component ids): the number after `#` is read digit by digit -- while the next character is a
     digit it is appended to the result and consumed exactly once, the first non-digit ends the number without
@@ -2278,6 +2391,15 @@ def build_controls(prog: Program) -> list[tuple[str, str, str, str, str]]:
     for st_ in (x for x in ast.walk(hb.node) if isinstance(x, ast.Expr) and isinstance(x.value, ast.Call) and method_call(x.value, None, "push_oper")):
         add("composition drops operator tokens", ENGINE, stmt_patch(hb, st_, lambda t: f"{indent_of(t)}pass\n"), "C05.TAB")
         break
+    # FRESH: build() memoised on its arguments while the operators keep mutating the builder
+    hb_body = [b_ for b_ in hb.node.body if not (isinstance(b_, ast.Expr) and isinstance(b_.value, ast.Constant))]
+    hb_params = [p_ for p_ in hb.params if p_ != "self"]
+    if hb_body and hb_params:
+        ind = " " * hb_body[0].col_offset
+        key_ = ", ".join(hb_params) + ("," if len(hb_params) == 1 else "")
+        memo = (f'{ind}if ({key_}) in getattr(self, "_built_engines", {{}}):\n'
+                f'{ind}    return self._built_engines[{key_}]\n')
+        add("build() answers from a memo of built engines", ENGINE, src_patch(eng, hb_body[0].lineno, hb_body[0].lineno, lambda t, memo=memo: memo + t), "C05.FRESH")
     # shared clauses: a control of the sibling, expected under this property's rule id
     from . import c06 as _c06
     from . import c13 as _c13
@@ -2303,6 +2425,7 @@ def run_rules(run: Run, prog: Program) -> None:
     check_tok(run, prog)
     check_digits(run, prog)
     check_ho_build(run, prog)
+    check_fresh(run, prog)
     check_pool(run, prog)
     check_shared(run, prog)
     from .c06 import check_sync as first_run_sync
@@ -2322,6 +2445,8 @@ def check(run: Run, prog: Program, tier: str) -> str:
     run.rule("C05.TOK", "the tokenizer's character iterator reads string[pos] only while pos < len(that same string), from 0")
     run.rule("C05.POOL", "a cache of engines built from formula strings is keyed by every parameter that selects the expression or "
              "its inputs (formula text, metric id, ...), and filled under the key it is read with")
+    run.rule("C05.FRESH", "build() of the composition API compiles the token stream the builder holds at that call: no engine is handed "
+             "back from a memo that the (in-place) operator methods do not invalidate")
     run.rule("C05.NAN", "an undefined sub-expression (NaN, e.g. from a zero divisor) stays undefined through every enclosing step "
              "(shared with C13.NAN / C13.UNDEF)")
     run.rule("C05.ALIGN", "the values combined by one evaluation belong to one timestamp: the first-run synchronisation advances "
@@ -2338,6 +2463,7 @@ def check(run: Run, prog: Program, tier: str) -> str:
     run.floor("C05.EVAL", 6)
     run.floor("C05.TOK", 6)
     run.floor("C05.POOL", 1)
+    run.floor("C05.FRESH", 2)
     run.floor("C05.ALIGN", 8)
     run.floor("C05.NAN", 12)
     from ..engine.controls import run_controls
